@@ -11,6 +11,11 @@ package revision
 
 //@ func (*revision.Reconciler).Reconcile
 //@ props C08
+// An inactive revision gives up control of its objects in every reconcile before it
+// (re-)establishes them as a plain owner: the release does not depend on what its status says.
+//@ ghost released bool = false
+//@ optional site (revision.Establisher).ReleaseObjects(_, _, $p)
+//@   update released = err == nil && $p == $pr
 //@ ghost lockRemoved bool = false
 //@ let $pr = result field:revision.Reconciler.newPackageRevision
 //@ site (revision.DependencyManager).RemoveSelf(_, _, $o)
@@ -36,6 +41,7 @@ package revision
 //@   assert [C15:established-only-if-compatible] compatible || ($pr.GetIgnoreCrossplaneConstraints() != nil && *$pr.GetIgnoreCrossplaneConstraints())
 //@   assert [C15:established-only-if-verified] r.features.Enabled(features.EnableAlphaSignatureVerification) ==> $pr.GetCondition(v1.TypeVerified).Status == "True"
 //@   assert [C15:established-for-this-revision] $parent == $pr && ($control <==> $pr.GetDesiredState() == "Active")
+//@   assert [C16:inactive-revision-released-control-first] $pr.GetDesiredState() == "Inactive" ==> released
 //@ optional site (xpkg.PackageCache).Delete(_, $k)
 //@   assert [C15:cache-entry-named-after-revision-or-source] $k == $pr.GetName() || ($pr.GetPackagePullPolicy() != nil && *$pr.GetPackagePullPolicy() == "Never" && $k == $pr.GetSource())
 //@   update cacheCleared = true
